@@ -219,11 +219,12 @@ def hermes_permutation(ctx, rule):
     shapes = [sh for l in fm for sh, site, _ in q.def_shapes(b, l, roles)]
     TAKE = "%s(Option::and_then(slice::get_mut(%%s,cast<usize>(p1)),fn:Option::take))" % LAM
     want = "Iterator::collect(Iterator::map(slice::iter(mapping),%s))" % (TAKE % "^var:Vec<Option<HermesFunctionMap>>")
-    ok = want in shapes
+    allcalls = [(bi, q.shape(b.expr_of_call(t), roles)) for bi, t in b.calls()]
+    ok = want in shapes or any(sh == want for _, sh in allcalls)
     ctx.check(ok, rule, fn, "function_maps:by-mapping", "function maps are rebuilt by mapping over the old-id mapping; each entry is looked up with the non-panicking get_mut at the old id and taken", detail=str(shapes)[:400])
     # the permutation must not be skipped when the lengths are equal (the common case: one entry
     # per source): the only guard allowed around it is mapping.len() <= function_maps.len()
-    sites = [site for l in fm for sh, site, _ in q.def_shapes(b, l, roles) if sh == want]
+    sites = [site for l in fm for sh, site, _ in q.def_shapes(b, l, roles) if sh == want] or [(bi, 0) for bi, sh in allcalls if sh == want]
     for site in sites:
         conds = [f for f in q.facts_at(b, site[0], {**roles, **{l: "fmaps" for l in fm}}) if f.op in ("Lt", "Le", "Eq", "Ne", "true", "false")]
         bad = [f for f in conds if f.key() not in (("Le", "Vec::len(mapping)", "Vec::len(fmaps)"),)]
@@ -231,7 +232,9 @@ def hermes_permutation(ctx, rule):
     MAPPING = "try(SourceMap::rewrite_with_mapping(arg1.sm,arg2)).1"
     raws = [sh for l in sorted(b.var_names) for sh, _, _ in q.def_shapes(b, l, {}) if "FacebookScopeMapping" in b.local_ty(l)]
     want_raw = "Option::map(var:Option<Vec<Option<Vec<FacebookScopeMapping>>>>,%s(Iterator::collect(Iterator::map(IntoIterator::into_iter(^%s),%s))))" % (LAM, MAPPING, TAKE % "^arg2")
-    ctx.check(want_raw in raws, rule, fn, "raw_sources:by-mapping", "the raw x_facebook_sources are permuted by the same mapping, each entry looked up with the non-panicking get_mut at the old id", detail=str(raws)[:500])
+    raws += [q.shape(b.expr_of_call(t)) for bi, t in b.calls()]
+    want_raw2 = want_raw.replace("var:Option<Vec<Option<Vec<FacebookScopeMapping>>>>", "arg1.raw_facebook_sources")
+    ctx.check(want_raw in raws or want_raw2 in raws, rule, fn, "raw_sources:by-mapping", "the raw x_facebook_sources are permuted by the same mapping, each entry looked up with the non-panicking get_mut at the old id", detail=str(raws)[:500])
     import pf
     bodies = [b] + [x for x in ctx.facts.closures_of(HREW)]
     pf.check_bodies(ctx, rule, bodies)
